@@ -25,6 +25,7 @@ type c10Reader struct {
 
 type c10Scenario struct {
 	name    string
+	keyed   bool
 	writers [][]model.Act
 	readers []c10Reader
 }
@@ -52,13 +53,26 @@ func c10Scenarios() []c10Scenario {
 		{name: "inc-both-rows||set||range", writers: [][]model.Act{{inc(R0), inc(R1)}, {set(R1, 9)}}, readers: []c10Reader{{"range", nil}}},
 		{name: "set||filtered-range(WithInt)", writers: [][]model.Act{{set(R0, 5)}, {inc(R0)}}, readers: []c10Reader{{"withint", nil}}},
 		{name: "set||filtered-range(index)", writers: [][]model.Act{{set(R0, 5), set(R1, 7)}}, readers: []c10Reader{{"withindex", nil}}},
+		{name: "keyed/set-both-rows||querykey||upsertkey-reader", keyed: true, writers: [][]model.Act{{set(R0, 5), set(R1, 6)}},
+			readers: []c10Reader{{"querykey", []uint32{R1}}, {"upsertkey", []uint32{R0}}}},
 		{name: "inc||queryat||range", writers: [][]model.Act{{inc(R0), inc(R1)}}, readers: []c10Reader{{"queryat", []uint32{R1}}, {"range", nil}}},
 	}
 }
 
 func (sc c10Scenario) instance() *eng.SchedInstance {
 	cols := []model.ColDef{{Name: "a", Kind: "int"}, {Name: "b", Kind: "int"}}
-	sw := newSWorld(model.Config{Cols: cols}, []model.Write{{Col: "a", V: model.Val{N: 2}}, {Col: "b", V: model.Val{N: uint64(^uint64(1))}}})
+	seed := []model.Write{{Col: "a", V: model.Val{N: 2}}, {Col: "b", V: model.Val{N: uint64(^uint64(1))}}}
+	var sw *sworld
+	if sc.keyed {
+		cols = append([]model.ColDef{{Name: "key", Kind: "key"}}, cols...)
+		sw = newSWorld(model.Config{Cols: cols}, nil)
+		sw.w.SeedReplay(map[uint32][]model.Write{
+			R0: append([]model.Write{{Col: "key", V: model.Val{S: "k0"}}}, seed...),
+			R1: append([]model.Write{{Col: "key", V: model.Val{S: "k1"}}}, seed...)})
+		sw.w.Commits, sw.w.Emitters = nil, nil
+	} else {
+		sw = newSWorld(model.Config{Cols: cols}, seed)
+	}
 	w := sw.w
 	w.C.CreateIndex("a>0", "a", func(r columnReader) bool { return r.Int() > 0 })
 	for i, acts := range sc.writers {
@@ -78,6 +92,23 @@ func (sc c10Scenario) instance() *eng.SchedInstance {
 		}
 		bodies = append(bodies, func() {
 			switch rd.kind {
+			case "querykey", "upsertkey":
+				for _, off := range rd.rows {
+					off := off
+					key := "k0"
+					if off == R1 {
+						key = "k1"
+					}
+					fn := func(r column.Row) error {
+						look(off, func(c string) (int, bool) { return r.Int(c) })
+						return nil
+					}
+					if rd.kind == "querykey" {
+						w.C.QueryKey(key, fn)
+					} else {
+						w.C.UpsertKey(key, fn)
+					}
+				}
 			case "queryat":
 				for _, off := range rd.rows {
 					off := off
